@@ -1,3 +1,5 @@
+//go:build go1.25
+
 package pgsim
 
 import (
@@ -687,7 +689,8 @@ func TestGateRequestsAndFaults(t *testing.T) {
 	if s.CommitCount() != commits+1 {
 		t.Fatal(s.CommitCount(), commits)
 	}
-	// connection ids are handed out in dial order
+	// connection ids are handed out in connection order; the throw-away connections that pgconn
+	// dials to send a CancelRequest after an I/O error do not consume ids
 	last := log.reqs[len(log.reqs)-1]
 	if last.ConnID != 3 {
 		t.Fatalf("conn id %d", last.ConnID)
@@ -734,7 +737,7 @@ func TestLockWaitWithoutGate(t *testing.T) {
 	synctest.Test(t, func(t *testing.T) {
 		s := NewServer()
 		ctx := context.Background()
-		pool := newPool(t, s, 3)
+		pool := newPool(t, s, 4)
 		defer pool.Close()
 		if _, err := pool.Exec(ctx, "CREATE TABLE t (id bigint PRIMARY KEY, v bigint NOT NULL); INSERT INTO t VALUES (1, 0)"); err != nil {
 			t.Fatal(err)
@@ -910,8 +913,11 @@ func TestDeterminism(t *testing.T) {
 		exerciseServiceQueries(t, ctx, pool)
 		return strings.Join(trace, "\n"), s.Hash()
 	}
-	t1, h1 := run()
-	t2, h2 := run()
+	// the fake clock makes time.Now() (used by the repository's Init) reproducible
+	var t1, t2 string
+	var h1, h2 [32]byte
+	synctest.Test(t, func(t *testing.T) { t1, h1 = run() })
+	synctest.Test(t, func(t *testing.T) { t2, h2 = run() })
 	if h1 != h2 {
 		t.Fatal("hash differs between identical runs")
 	}
